@@ -34,7 +34,12 @@ RULE = ("Part A: one execution = one (configuration class, decision vector, cros
         "offset = 8 reachable values incl. both extremes (4 at 6 slots).  Part B: one execution = one select() on "
         "(protocol class, population size, criterion ordering = every weak ordering, population order/labels, design, "
         "weight sign, optimiser, class parameters, sampling answers: default + all single deviations on every 13th/29th "
-        "case).  Non-trivial = >=2 slots and >=2 candidate units; distinct by digest of (class, inputs, answers)")
+        "case).  Part H (setter histories on one object): protocol built with design A, optionally select() once, the "
+        "design re-assigned through the public setters ncross/nparent/nmating/nprogeny in every order (all four, or only "
+        "the changed ones), select(): must equal a FRESH protocol of design B (decision, configuration, counts) under "
+        "the same optimiser and generator answers; likewise the eight configuration classes (ncross/nparent/nmating/"
+        "nprogeny/xconfig_decn/xconfig_xmap in every order their validating setters admit, then sample_xconfig()).  "
+        "Non-trivial = >=2 slots and >=2 candidate units; distinct by digest of (class, inputs, answers)")
 ASSUME = ["numpy generators can return every sample / permutation / uniform(0,d)=d*j*2^-53 that the script injects",
           "mc/compat.py restores removed numpy names only",
           "exchange-order answers are grouped by the first improving exchange (sound for the loop as written: it accepts "
@@ -275,6 +280,11 @@ def shards(tier, seed):
             for i in range(0, len(cases), step):
                 out.append(("B-SO", ci, n, i, min(len(cases), i + step)))
         out.append(("B-MO", ci))
+    # ---- part H: setter histories
+    for ci, info in enumerate(covered):
+        if ci % 4 == 0:
+            out.append(("H-B", ci, min(len(covered), ci + 4)))
+    out.append(("H-A",))
     return out
 
 
@@ -1111,6 +1121,208 @@ def run_B_MO(ctx, info, n, front, spec, ndwt, design, vi, answers=None, seed=Non
 
 
 # --------------------------------------------------------------------------------------
+# Part H: setter histories on ONE object — after re-assigning the design through the public setters (in every
+# admissible order, with or without a selection in between) the object must behave like a freshly constructed one
+def _design_values(c, p, nmi):
+    nm, npg = _nmnp(nmi, c)
+    arr = lambda v: numpy.array([v] * c if isinstance(v, int) else v, dtype="int64")
+    return dict(ncross=c, nparent=p, nmating=arr(nm), nprogeny=arr(npg))
+
+
+def histories_HB(info, tier):
+    """(n, designA, designB, order of setter names, minimal?, preselect?, wt, opt, pi)"""
+    T = tier == "thorough"
+    F = FAM[info["fam"]]
+    n = 3 if (info["mate"] and info["enc"] != "subset") else 4
+    ds = designs_B_SO(info, n, tier)
+    pairs = [(a, b) for a in ds for b in ds if a != b]
+    # grow / shrink ncross only, nparent only, both — first; the rest rotate
+    key = lambda ab: (0 if (ab[0][1] == ab[1][1]) else (1 if ab[0][0] == ab[1][0] else 2), ab)
+    pairs.sort(key=key)
+    names = ("ncross", "nparent", "nmating", "nprogeny")
+    orders = list(itertools.permutations(names))
+    opts = (["sorting"] if (F["sorting"] and info["enc"] == "subset") else []) + ["first"]
+    out = []
+    k = 0
+    full = T and info["enc"] == "subset"
+    npairs = len(pairs) if full else min(len(pairs), 8)
+    for pi_, (a, b) in enumerate(pairs[:npairs]):
+        changed = [nm for nm, x, y in (("ncross", a[0], b[0]), ("nparent", a[1], b[1])) if x != y]
+        minimal_names = tuple(changed) + (("nmating", "nprogeny") if a[0] != b[0] else ())
+        sets = [(o, False) for o in (orders if (full or pi_ < 3) else orders[k % 24::7])]
+        sets += [(o, True) for o in itertools.permutations(minimal_names)]
+        for (o, minimal) in sets:
+            out.append((n, a, b, tuple(o), minimal, bool(k % 2), (1.0, -1.0)[(k // 2) % 2], opts[k % len(opts)], k % len(F["params"])))
+            k += 1
+    return out
+
+
+_FRESH = {}
+
+
+def _select_once(info, pop, par, design, nmnp, wt, opt, proto=None, crit=None):
+    """one select() with default sampling answers; returns (proto, cfg, misc)"""
+    c, p = design
+    h = R.SamplingHandler(Chooser(), c, 1 if info["mate"] else p, sus_menu=(2 ** 52,), axis_budget=0)
+    h.frozen = True
+    if info["fam"] == "RandomSelection":
+        h.mvn = crit[pop.order, :].copy()
+    g = R.make_rng(h, "RandomState")
+    if proto is None:
+        so = R.library_sorting() if opt == "sorting" else R.make_brute(info["enc"], tiebreak=opt)
+        proto = _make_proto(info, pop, par, design, nmnp, 1, wt, 1, g, so, R.make_given_front(info["enc"], [[0.0]]))
+    else:
+        proto.rng = g
+    misc = {}
+    with R.patched_global_prng(g):
+        cfg = proto.select(miscout=misc, **pop.args())
+    return proto, cfg, misc
+
+
+def run_HB(ctx, info, n, a, b, order, minimal, presel, wt, opt, pi, seed=None):
+    seed = ctx.seed if seed is None else seed
+    fam = info["fam"]
+    F = FAM[fam]
+    par = F["params"][pi % len(F["params"])]
+    ranks = tuple((i * 3 + 1) % n for i in range(n)) if n != 3 else (1, 2, 0)
+    ranks = tuple(sorted(set(ranks)).index(r) for r in ranks)
+    variant = variants(n, "quick")[1]
+    pop, crit = _population(n, 1, ranks, seed, variant, fam)
+    case = dict(part="H-B", cls=info["cls"], mod=info["mod"], n=n, a=list(a), b=list(b), order=list(order), minimal=minimal,
+                presel=presel, wt=wt, opt=opt, par=pi, seed=seed)
+    ctx.evaluations += 1
+    ctx.count("H-B:histories")
+    dvb = _design_values(b[0], b[1], 2)
+    nmnp_b = (dvb["nmating"].tolist(), dvb["nprogeny"].tolist())
+    nmnp_a = _nmnp(2, a[0])
+    P = "SelectionProtocol.setters[design]:"
+
+    def body():
+        fkey = (info["cls"], n, b, wt, opt, pi, seed)
+        fr = _FRESH.get(fkey)
+        if fr is None:
+            _, cfg0, misc0 = _select_once(info, pop, par, b, nmnp_b, wt, opt, crit=crit)
+            fr = _FRESH[fkey] = (numpy.array(cfg0.xconfig_decn), numpy.array(cfg0.xconfig), numpy.array(cfg0.nmating), numpy.array(cfg0.nprogeny))
+            if len(_FRESH) > 300:
+                _FRESH.pop(next(iter(_FRESH)))
+        proto = None
+        if presel:
+            proto, _, _ = _select_once(info, pop, par, a, nmnp_a, wt, opt, crit=crit)
+            ctx.transitions += 1
+        else:
+            h = R.SamplingHandler(Chooser(), a[0], a[1])
+            so = R.library_sorting() if opt == "sorting" else R.make_brute(info["enc"], tiebreak=opt)
+            proto = _make_proto(info, pop, par, a, nmnp_a, 1, wt, 1, R.make_rng(h, "RandomState"), so, R.make_given_front(info["enc"], [[0.0]]))
+        for name in order:
+            setattr(proto, name, dvb[name].copy() if isinstance(dvb[name], numpy.ndarray) else dvb[name])
+            ctx.transitions += 1
+        _, cfg, misc = _select_once(info, pop, par, b, nmnp_b, wt, opt, proto=proto, crit=crit)
+        ctx.transitions += 1
+        got = (numpy.array(cfg.xconfig_decn), numpy.array(cfg.xconfig), numpy.array(cfg.nmating), numpy.array(cfg.nprogeny))
+        for nm_, g_, f_ in zip(("xconfig_decn", "xconfig", "nmating", "nprogeny"), got, fr):
+            require(g_.shape == f_.shape and numpy.array_equal(g_, f_), P + "differs-from-fresh-protocol:" + nm_,
+                    lambda: f"protocol built as {a[0]}x{a[1]}, then {'selected once, then ' if presel else ''}assigned {list(order)} -> {b[0]}x{b[1]}: "
+                            f"{nm_} = {g_.tolist()}, a freshly constructed {b[0]}x{b[1]} protocol gives {f_.tolist()} (same optimiser, same generator answers)")
+        ctx.state(digest((info["cls"], b, got[0], got[1])))
+        ctx.outcome(digest(("H", info["enc"], got[0], got[1])))
+    if ctx.guard(body, case=case, sig_prefix=f"{info['cls']}.select:"):
+        ctx.traces += 1
+    ctx.nontriv(digest(("H-B", info["cls"], a, b, order, minimal, presel)))
+    ctx.flag("H-B:presel" if presel else "H-B:no-presel")
+    ctx.flag("H-B:minimal" if minimal else "H-B:full")
+
+
+def _valid_cfg_orders(names):
+    """setter orders the configuration classes accept: their per-cross array setters validate against the
+    current ncross (and the cross map against the current nparent) — 'order dependent assignments'"""
+    out = []
+    for o in itertools.permutations(names):
+        pos = {nm: i for i, nm in enumerate(o)}
+        if all(pos["ncross"] < pos[x] for x in ("nmating", "nprogeny") if x in pos and "ncross" in pos) and \
+                ("xconfig_xmap" not in pos or "nparent" not in pos or pos["nparent"] < pos["xconfig_xmap"]):
+            out.append(o)
+    return out
+
+
+def histories_HA(tier, seed):
+    out = []
+    for key, (name, enc, mate) in CFG.items():
+        if mate:
+            xm = xmaps_A("quick")
+            items = []
+            for (ntaxa, nparent, uniq, rows) in xm[:3]:
+                decs = decisions_A_mate(key, len(rows), "quick", seed)
+                for c in (1, 2, 3):
+                    items.append((c, nparent, decs[(c * 3) % len(decs)], rows))
+        else:
+            items = []
+            for (c, p) in ((1, 2), (2, 2), (3, 1), (2, 1), (1, 3), (3, 2)):
+                decs = decisions_A(key, "quick", seed, c * p)
+                items.append((c, p, decs[(c + 2 * p) % len(decs)], None))
+        pairs = [(x, y) for x in items for y in items if x is not y]
+        step = 1 if tier == "thorough" else 3
+        for i, (x, y) in enumerate(pairs[::step]):
+            names = ("ncross", "nparent", "nmating", "nprogeny", "xconfig_decn") + (("xconfig_xmap",) if mate else ())
+            orders = _valid_cfg_orders(names)
+            use = orders if (tier == "thorough" or i < 2) else orders[i % len(orders)::11]
+            for o in use:
+                out.append((key, x, y, o))
+    return out
+
+
+def run_HA(ctx, key, x, y, order, seed=None):
+    seed = ctx.seed if seed is None else seed
+    name, enc, mate = CFG[key]
+    cls = _cfg_cls(key)
+    pg = _pgmat(seed)
+    (ca, pa, (da, dta), xa), (cb, pb, (db, dtb), xb) = x, y
+    case = dict(part="H-A", key=key, x=[ca, pa, [list(da), dta], xa], y=[cb, pb, [list(db), dtb], xb], order=list(order), seed=seed)
+    ctx.evaluations += 1
+    ctx.count("H-A:histories")
+    P = f"{name}.setters:"
+
+    def mk(c, p, d, dt, xm):
+        h = R.SamplingHandler(Chooser(), c, 1 if mate else p, sus_menu=(2 ** 52,), axis_budget=0)
+        h.frozen = True
+        g = R.make_rng(h, "Generator")
+        dv = _design_values(c, p, 2)
+        args = [c, p, dv["nmating"], dv["nprogeny"], pg, numpy.array(d, dtype=dt)]
+        if mate:
+            args.append(numpy.array(xm, dtype="int64"))
+        return cls(*args, g), dv
+
+    def body():
+        fresh, dvb = mk(cb, pb, db, dtb, xb)
+        ctx.transitions += 1
+        obj, _ = mk(ca, pa, da, dta, xa)
+        ctx.transitions += 1
+        vals = dict(dvb, xconfig_decn=numpy.array(db, dtype=dtb))
+        if mate:
+            vals["xconfig_xmap"] = numpy.array(xb, dtype="int64")
+        for nm_ in order:
+            v = vals[nm_]
+            setattr(obj, nm_, v.copy() if isinstance(v, numpy.ndarray) else v)
+            ctx.transitions += 1
+        h = R.SamplingHandler(Chooser(), cb, 1 if mate else pb, sus_menu=(2 ** 52,), axis_budget=0)
+        h.frozen = True
+        obj.rng = R.make_rng(h, "Generator")
+        ret = obj.sample_xconfig(return_xconfig=True)
+        ctx.transitions += 1
+        _check_xconfig(f"{name}.sample_xconfig:", enc, mate, list(db), xb, cb, pb, obj.xconfig, None)
+        for nm_ in ("xconfig", "nmating", "nprogeny", "xconfig_decn"):
+            g_, f_ = numpy.asarray(getattr(obj, nm_)), numpy.asarray(getattr(fresh, nm_))
+            require(g_.shape == f_.shape and numpy.array_equal(g_, f_), P + "differs-from-fresh-configuration:" + nm_,
+                    lambda: f"configuration built as {ca}x{pa} decision {da}, assigned {list(order)} -> {cb}x{pb} decision {db}, re-sampled: "
+                            f"{nm_} = {g_.tolist()}, a freshly constructed one gives {f_.tolist()} (same generator answers)")
+        ctx.state(digest((key, cb, pb, db, obj.xconfig)))
+        ctx.outcome(digest(("HA", cb, pb, obj.xconfig)))
+    if ctx.guard(body, case=case, sig_prefix=P):
+        ctx.traces += 1
+    ctx.nontriv(digest(("H-A", key, ca, pa, da, cb, pb, db, order)))
+    ctx.flag(f"H-A:{key}")
+
+
+# --------------------------------------------------------------------------------------
 def run_shard(spec, ctx):
     ctx.bounds.update({"A_slots_max": 6, "A_decision_len_max": 4 if ctx.tier == "quick" else 6, "A_sus_offsets": len(R.SUS_J)})
     if spec[0] == "X":
@@ -1141,6 +1353,13 @@ def run_shard(spec, ctx):
         for (t, ranks, vi, design, w, o, pi, nmi, bound) in cases_B_SO(info, n, ctx.tier)[lo:hi]:
             run_B_SO(ctx, info, n, t, ranks, vi, design, w, o, pi, nmi, bound=bound)
         ctx.bounds.update({"B_n_max": 5 if ctx.tier == "thorough" else 4, "B_sampling_deviation_bound": 1})
+    elif spec[0] == "H-B":
+        for info in discover()[0][spec[1]:spec[2]]:
+            for hcase in histories_HB(info, ctx.tier):
+                run_HB(ctx, info, *hcase)
+    elif spec[0] == "H-A":
+        for (key, x, y, o) in histories_HA(ctx.tier, ctx.seed):
+            run_HA(ctx, key, x, y, o)
     elif spec[0] == "B-MO":
         _, ci = spec
         info = discover()[0][ci]
@@ -1172,6 +1391,9 @@ def finalize(ctx, tier, seed):
     assert ctx.counters.get("B-SO:independent-criterion-checks", 0) > 1000 or broken
     assert ctx.counters.get("B-SO:canonical-equivariance-checks", 0) > 100 or broken
     assert ctx.counters.get("B-MO:choice-rule-judged", 0) > 1000 or broken
+    assert ctx.counters.get("H-B:histories", 0) > 2000 and ctx.counters.get("H-A:histories", 0) > 500
+    for f in ("H-B:presel", "H-B:no-presel", "H-B:minimal", "H-B:full") + tuple(f"H-A:{k}" for k in CFG):
+        assert f in ctx.flags, f
     assert len(ctx.outcomes) > 100, len(ctx.outcomes)
 
 
@@ -1182,6 +1404,14 @@ def replay(case, ctx):
               sus_menu=None if case.get("sus_menu") is None else tuple(case["sus_menu"]))
     elif case["part"] == "X":
         run_X(ctx)
+    elif case["part"] == "H-B":
+        info = next(i for i in discover()[0] if i["cls"] == case["cls"])
+        run_HB(ctx, info, case["n"], tuple(case["a"]), tuple(case["b"]), tuple(case["order"]), case["minimal"], case["presel"],
+               case["wt"], case["opt"], case["par"], seed=case.get("seed"))
+    elif case["part"] == "H-A":
+        def _it(v):
+            return (v[0], v[1], (list(v[2][0]), v[2][1]), None if v[3] is None else [tuple(r) for r in v[3]])
+        run_HA(ctx, case["key"], _it(case["x"]), _it(case["y"]), tuple(case["order"]), seed=case.get("seed"))
     elif case["part"] in ("B-SO", "B-MO"):
         ctx.tier = case.get("tier", ctx.tier)
         info = next(i for i in discover()[0] if i["cls"] == case["cls"])
